@@ -58,14 +58,55 @@ func VerifSaneOptions(o FastBackoffOptions) bool {
 //verif:props C14
 func verif_Backoff(f *fastBackoffImpl, previousDuration time.Duration, previousConditionError bool) {
 	verif.Requires(VerifSaneOptions(f.options) && previousDuration >= 0, "sane_options")
+	c0, cut0, o0 := f.countsInFastRetryWindow, f.fastRetryCutoffTime, f.options
+	first := f.lastCalledTime.IsZero()
 	verif.ResetEvents()
 	d := f.Backoff(previousDuration, previousConditionError)
 	verif.Ensures(d > 0, "never_a_tight_loop")
-	fast := verif.Called("wait.Jitter") && verif.NthArg[time.Duration]("wait.Jitter", 0, 0) == f.options.FastRetryDelay && verif.CallCount("wait.Jitter") == 1 && d == verif.Ret[time.Duration]("wait.Jitter", 0)
-	if previousConditionError && f.options.MaxDuration > 0 && !fast {
+	fast := previousConditionError && o0.FastRetryCount > 0 && c0+1 <= o0.FastRetryCount
+	if previousConditionError && f.options.MaxDuration > 0 && !fast && !first {
 		verif.Ensures(d <= f.options.MaxDuration || d == f.options.Duration, "bounded_delay_after_failure")
 	}
 	if !previousConditionError {
 		verif.Ensures(d == f.options.Duration, "base_delay_after_success")
 	}
+	// the fast-retry allowance: at most FastRetryCount short delays per
+	// FastRetryWindow - the counter starts again only when the window that was
+	// opened FastRetryWindow after the previous reset has passed
+	if first {
+		return
+	}
+	if fast {
+		verif.Ensures(f.countsInFastRetryWindow == c0+1 && verif.CallCount("wait.Jitter") == 1 && verif.NthArg[time.Duration]("wait.Jitter", 0, 0) == o0.FastRetryDelay && d == verif.Ret[time.Duration]("wait.Jitter", 0), "short_delay_only_within_the_allowance")
+		verif.Ensures(verif.Same(f.fastRetryCutoffTime, cut0), "allowance_window_untouched_by_a_fast_retry")
+	}
+	if !verif.Same(f.fastRetryCutoffTime, cut0) {
+		verif.Ensures(f.countsInFastRetryWindow == 0 && c0+1 > f.options.FastRetryCount, "window_reopened_only_after_the_allowance_was_used_up")
+		verif.Ensures(verif.CalledWith("Time).Add", 1, f.options.FastRetryWindow) && verif.Same(f.fastRetryCutoffTime, verif.Ret[time.Time]("Time).Add", 0)) && verif.Same(verif.NthArg[time.Time]("Time).Add", 0, 0), verif.Ret[time.Time]("time.Now", 0)), "next_window_ends_one_full_window_from_now")
+	}
 }
+
+// The condition function BackoffUntil drives is unknown code. Assumed frame
+// (listed): it does not touch the back-off manager's state.
+//
+//verif:dyncall ~/pkg/util/wait.BackoffUntil 1 always
+func verifSpec_condition() (bool, error) {
+	verif.HavocExcept("H.pkg.util.wait.")
+	return verif.Any[bool](), verif.Any[error]()
+}
+
+// Loop invariant of BackoffUntil: the delay handed back to the manager is never
+// negative (managers return positive delays).
+//
+//verif:loop ~/pkg/util/wait.BackoffUntil 1 inv=verifBackoffLoop args=delay
+func verifBackoffLoop(delay time.Duration) bool { return delay >= 0 }
+
+// Frame of an arbitrary back-off manager (trusted, listed): computing the next
+// delay touches only the manager's own state. (The fastBackoffImpl manager has
+// the verified contract above; through the interface only the frame is used.)
+//
+//verif:contract (~/pkg/util/wait.BackoffManager).Backoff
+//verif:trusted
+//verif:inline-known
+//verif:modifies H.pkg.util.wait.fastBackoffImpl.
+func verif_BackoffManager_Backoff(b BackoffManager, d time.Duration, e bool) { _ = b.Backoff(d, e) }
